@@ -107,12 +107,12 @@ theorem hash_none_empty (sl : List Elem) (f lo hi : Nat) (hw : WidthOk S p sl f 
     (hn : (build A S p sl f lo hi).hash = none) : slRange sl lo hi = [] := by
   cases f with
   | zero =>
-    simp only [WidthOk] at hw
-    rw [build_zero, if_neg (by omega)] at hn
+    simp only [WidthOk, Div] at hw
+    rw [build_zero, if_neg hw] at hn
     exact (elemsHash_none_iff A _).mp hn
   | succ f =>
     rw [build_succ] at hn
-    by_cases hc : (slRange sl lo hi).length > p.thr
+    by_cases hc : (slRange sl lo hi).length > p.thr ∧ S.wide lo hi p.df = true
     · rw [if_pos hc] at hn; simp [Tree.hash, kidsHash] at hn
     · rw [if_neg hc] at hn; exact (elemsHash_none_iff A _).mp hn
 
@@ -142,23 +142,23 @@ theorem mem_kids_hash (sl : List Elem) (f lo hi : Nat) (d : D) :
 
 /-- the two shapes of a canonical subtree under the width hypothesis -/
 theorem build_cases (sl : List Elem) (f lo hi : Nat) (hw : WidthOk S p sl f lo hi) :
-    ((slRange sl lo hi).length ≤ p.thr ∧ build A S p sl f lo hi = mkLeaf A sl lo hi) ∨
-    (∃ g, f = g + 1 ∧ (slRange sl lo hi).length > p.thr ∧
+    (¬ Div S p sl lo hi ∧ build A S p sl f lo hi = mkLeaf A sl lo hi) ∨
+    (∃ g, f = g + 1 ∧ Div S p sl lo hi ∧
       build A S p sl f lo hi = .div (slRange sl lo hi).length
         (kidsHash A (buildKids A S p sl g lo hi)) (buildKids A S p sl g lo hi) ∧
       SplitOk S p.df lo hi ∧
       ∀ i, i < p.df → WidthOk S p sl g (S.child lo hi p.df i).1 (S.child lo hi p.df i).2) := by
   cases f with
   | zero =>
-    simp only [WidthOk] at hw
-    left; exact ⟨hw, by rw [build_zero, if_neg (by omega)]⟩
+    simp only [WidthOk, Div] at hw
+    left; exact ⟨hw, by rw [build_zero, if_neg hw]⟩
   | succ g =>
-    by_cases hc : (slRange sl lo hi).length > p.thr
+    by_cases hc : (slRange sl lo hi).length > p.thr ∧ S.wide lo hi p.df = true
     · right
       rcases hw with h | h
-      · omega
+      · exact absurd hc h
       · exact ⟨g, rfl, hc, by rw [build_succ, if_pos hc], h.1, h.2⟩
-    · left; exact ⟨by omega, by rw [build_succ, if_neg hc]⟩
+    · left; exact ⟨hc, by rw [build_succ, if_neg hc]⟩
 
 /-- equal divided digests: the unions of the children's contents agree, provided equal child
 digests mean equal child contents. No positional argument is needed although `calcDividedHash`
@@ -245,8 +245,8 @@ theorem elems_vs_node_inj (hA : DigOk A) (sl sl' : List Elem) (f lo hi lo' hi' :
     pairs (slRange sl lo hi) = pairs (slRange sl' lo' hi') := by
   cases f with
   | zero =>
-    simp only [WidthOk] at hw
-    rw [build_zero, if_neg (by omega)] at hh
+    simp only [WidthOk, Div] at hw
+    rw [build_zero, if_neg hw] at hh
     exact elemsHash_inj A hA _ _ hh
   | succ f =>
     rw [build_succ] at hh
